@@ -1131,6 +1131,11 @@ impl<T: Read + Seek> BlocksToFileReader<'_, T> {
                             self.move_to_next_block()?;
                             return Ok(None);
                         }
+                        if length == 0 {
+                            // An empty block carries no data: go on with the next
+                            // one (a read of 0 byte would mean the end of the file)
+                            return Ok(None);
+                        }
                         let count = self.src.by_ref().take(length).read(into)?;
                         let length_usize = usize::try_from(length).map_err(|_| {
                             std::io::Error::new(
